@@ -140,6 +140,10 @@ type CronJob struct {
 
 	// Err holds the error returned by the last invocation of Fn.
 	Err error
+
+	// cancelled is set when the job is removed (or replaced) while
+	// its Fn is running.  A cancelled job is not scheduled again.
+	cancelled bool
 }
 
 // Timeline is the time-order list of pending CronJobs.
@@ -185,6 +189,10 @@ type Cron struct {
 
 	// The approximate maximum number pending jobs.
 	Limit int
+
+	// running holds the jobs that have been taken off the Timeline
+	// and whose Fn is executing, so that Rem() can reach them.
+	running map[string]*CronJob
 }
 
 // NewCron creates a new Cron instanced.
@@ -204,7 +212,8 @@ func NewCron(broadcaster *CronBroadcaster, pause time.Duration, name string, lim
 		time.Now(),
 		pause,
 		name,
-		limit}
+		limit,
+		make(map[string]*CronJob)}
 
 	return c, nil
 }
@@ -352,6 +361,7 @@ LOOP:
 				if ready {
 					// Danger.  ToDo: Be more careful
 					c.Timeline = c.Timeline[1:]
+					c.running[job.Id] = job
 					go func(job *CronJob) {
 						c.run(ctx, job)
 					}(job)
@@ -389,7 +399,16 @@ func (c *Cron) run(ctx *core.Context, job *CronJob) {
 	if err != nil {
 		job.Err = err
 	}
-	if once {
+	c.Lock()
+	cancelled := job.cancelled
+	if c.running[job.Id] == job {
+		delete(c.running, job.Id)
+	}
+	c.Unlock()
+	if once || cancelled {
+		// A job that was removed or replaced while it was running
+		// must not come back (and must not push out its
+		// replacement).
 	} else {
 		// ToDo: Consider an error here.
 		c.schedule(ctx, job, false)
@@ -558,6 +577,11 @@ func (c *Cron) rem(ctx *core.Context, id string) (bool, error) {
 			found = true
 			break
 		}
+	}
+	if job, running := c.running[id]; running {
+		job.cancelled = true
+		delete(c.running, id)
+		found = true
 	}
 	if !found {
 		// log.Printf("Cron.Rem %p %s job %s not found", c, c.Name, id)
